@@ -9,9 +9,10 @@ From PP Require Import Doc Dispatch DispatchProofs.
     booleans / ValueError of is_registered) are those of the abstract rule:
     nearest class in the MRO with a registration (the latest one for that
     class, deferred and direct being equivalent), else the first-registered
-    accepting predicate, else repr. *)
+    accepting predicate, else repr.  Predicates are applied to the INSTANCE
+    (Print c i: instance tag i of class c): they may look at the value. *)
 Theorem C15_refines :
-  forall (mro : cls -> list cls) (accepts : pd -> cls -> bool),
+  forall (mro : cls -> list cls) (accepts : pd -> nat -> bool),
     (forall c, exists tl, mro c = c :: tl) ->
     forall h, forallb cd_query h = true ->
       drun mro accepts dinit h = srun mro accepts sinit h.
@@ -40,6 +41,6 @@ Print Assumptions C15_isreg_nodeferred_sound.
     (before fix 4 the model, like the code, answered p1, p2, p2). *)
 Example C15_stale_deferred_history :
   let mro := fun c => match c with 1 => [1; 0] | c => [c] end%nat in
-  drun mro (fun _ _ => false) dinit [RegName 0 2; RegClass 0 1; Print 0; Print 1; Print 0]%nat
+  drun mro (fun _ _ => false) dinit [RegName 0 2; RegClass 0 1; Print 0 0; Print 1 1; Print 0 0]%nat
   = [OUnit; OUnit; OChosen (ByPrinter 1); OChosen (ByPrinter 1); OChosen (ByPrinter 1)]%nat.
 Proof. vm_compute. reflexivity. Qed.
